@@ -118,6 +118,7 @@ class FreeOpts:
         self.namecase = False    # change the case of names (consistently per program)
         self.blanks = False      # vary blanks between tokens
         self.directives = 0      # percent of comments that are directive-shaped
+        self.trail_blanks = 0    # percent of physical lines that get 1-8 trailing blanks (blank lines: blanks only)
         self.excl = set()
         self.names = None        # set of lower-case identifiers that are names (others = keywords)
         for k, v in kw.items():
@@ -340,7 +341,17 @@ def free_layout(flat, rnd, opts):
             can_join = False
         first_stmt = False
     close_group()
+    _trailing_blanks(r, lay, opts)
     return lay
+
+
+def _trailing_blanks(r, lay, opts):
+    if not getattr(opts, "trail_blanks", 0):
+        return
+    for i in range(len(lay.lines)):
+        if r.chance(opts.trail_blanks):
+            lay.lines[i] += " " * r.n(1, 8)
+            lay.features.add("trailing_blanks")
 
 
 def default_gap(a, b):
@@ -367,6 +378,7 @@ class FixedOpts:
         self.extra_indent = False
         self.lit_cross = 50      # percent: let literals cross column 72 when wrap == 72
         self.lit_pad = 0         # percent: pad before a literal so that it straddles column 72
+        self.trail_blanks = 0    # percent of physical lines that get 1-8 trailing blanks (blank lines: blanks only)
         self.excl = set()
         self.names = None
         for k, v in kw.items():
@@ -477,4 +489,5 @@ def fixed_layout(flat, rnd, opts):
         lines.append(cur)
         lay.span[st.uid] = (first, len(lines))
         lay.own[st.uid] = lay.span[st.uid]
+    _trailing_blanks(r, lay, opts)
     return lay
